@@ -149,14 +149,19 @@ func Plan(thorough bool, run RunFn) {
 		}
 	}
 	if !thorough {
-		A("tx", 4, 3)
+		// breadth first (cheap, survives a loaded box), then deeper; a deeper search of the same
+		// (part,config) subsumes the shallower one in the evidence
+		A("tx", 2, 2)
 		F("1e3x1e3")
-		B("1e3x1e3", 3, 3)
-		A("own", 3, 3)
+		B("1e3x1e3", 2, 2)
+		A("own", 2, 2)
 		B("2p63x2p63", 2, 2)
 		B("1x2p62", 2, 2)
 		B("1x1", 2, 2)
-		// deeper only if the box is idle enough
+		A("tx", 3, 3)
+		A("own", 3, 3)
+		B("1e3x1e3", 3, 3)
+		A("tx", 4, 3)
 		B("2p63x2p63", 3, 3)
 		B("1x2p62", 3, 3)
 		B("1x1", 3, 3)
